@@ -37,6 +37,7 @@ struct Inst {
   void *cookie = nullptr;
   bool ready_reported = false;  // some poll after registration returned its direction bit
   long reg_poll = 0;            // number of polls completed when it was registered
+  long reg_seq = 0;             // World::seqctr at registration
 };
 
 struct World {
@@ -49,6 +50,9 @@ struct World {
   // kernel
   int64_t now = 1000000000;
   short flags[MAXFD];  // POLLIN|POLLOUT|POLLHUP|POLLERR state per fd
+  long chg_seq[MAXFD];   // value of `seqctr` when the kernel state of the fd last changed
+  long seqctr = 0;       // bumped at every kernel-state change, registration and callback end
+  long last_cb_end = 0;  // seqctr when the previous callback ended (or this events_run began)
   struct Sched {
     int64_t at;
     int fd;
@@ -94,6 +98,7 @@ static World *W;
 static void apply_sched() {
   while (!W->sched.empty() && W->sched.front().at <= W->now) {
     W->flags[W->sched.front().fd] = W->sched.front().fl;
+    W->chg_seq[W->sched.front().fd] = ++W->seqctr;
     W->sched.pop_front();
   }
 }
@@ -226,6 +231,7 @@ extern "C" int __wrap_poll(struct pollfd *fds, nfds_t n, int timeout) {
     for (nfds_t i = 0; i < n; i++)
       if (best < 0 || fds[i].fd < fds[best].fd) best = (int)i;
     w.flags[fds[best].fd - FD_BASE] |= (short)(fds[best].events & (POLLIN | POLLOUT));
+    w.chg_seq[fds[best].fd - FD_BASE] = ++w.seqctr;
     w.cls.insert("fair-kernel-fallback");
   }
   if (blocked && w.in_run && w.cb_in_run == 0 && w.runnable_at_entry)
@@ -319,6 +325,7 @@ static void do_register(int j, bool in_cb) {
     x->base_max = w.call_max >= 0 ? w.call_max : w.now;
   }
   x->seq = w.seq++;
+  x->reg_seq = ++w.seqctr;
   if (in_cb) {
     int others = 0;
     for (auto &p : w.insts)
@@ -398,6 +405,7 @@ static void set_ready(int fd, int fl) {
   if (fl & 4) f |= POLLHUP;
   if (fl & 8) f |= POLLERR;
   W->flags[fd] = f;
+  W->chg_seq[fd] = ++W->seqctr;
 }
 
 static void check_choice(Inst *x) {
@@ -435,6 +443,19 @@ static void check_choice(Inst *x) {
     return;
   }
   if (x->kind == TMR) {
+    // behavioural form of "a ready socket wins over an expired timer": a registration that existed, and whose descriptor
+    // has been ready in the kernel without interruption, ever since the previous callback ended (or this call began)
+    // must have been noticed by any loop that looks before it runs a timer
+    for (int f = 0; f < MAXFD && !w.failed; f++)
+      for (int d = 0; d < 2; d++) {
+        Inst *y = w.net[f][d];
+        if (y && y->state == PENDING && y->reg_seq <= w.last_cb_end && w.chg_seq[f] <= w.last_cb_end &&
+            ((w.flags[f] & (d ? POLLOUT : POLLIN)) || (w.flags[f] & (POLLHUP | POLLERR)))) {
+          w.fail(5, "timer-before-ready-socket",
+                 "a timer ran although descriptor " + std::to_string(f) + " (dir " + std::to_string(d) + ") had been ready in the kernel, and registered, ever since the previous callback ended");
+          break;
+        }
+      }
     for (auto &p : w.insts)
       if (p->state == PENDING && p->kind == TMR && p.get() != x && dl_min(x) > dl_max(p.get())) {
         w.fail(5, "timer-order", "timer with deadline " + std::to_string(dl_min(x)) + " ran before pending timer with deadline " + std::to_string(dl_max(p.get())));
@@ -474,7 +495,10 @@ static int cb(void *c) {
   x->state = FIRED;
   w.cb_in_run++;
   if (w.done_after >= 0 && w.cb_in_run >= w.done_after) w.done_flag = 1;
-  if (w.draining || w.failed) return 0;
+  if (w.draining || w.failed) {
+    w.last_cb_end = ++w.seqctr;
+    return 0;
+  }
   const Tpl &t = w.tpls[x->tpl];
   bool interrupted = false;
   for (auto &a : t.acts) {
@@ -503,6 +527,7 @@ static int cb(void *c) {
     }
   }
   if (w.done_after >= 0 && !anything_pending()) w.done_flag = 1;
+  w.last_cb_end = ++w.seqctr;
   int rc = t.rc;
   if (w.in_run) {
     if (rc != 0 && w.expect_rc == 0 && !w.stop_seen) w.expect_rc = rc;
@@ -527,6 +552,7 @@ static void run_once(int spin_n) {
   World &w = *W;
   if (!anything_pending()) return;
   w.in_run = true;
+  w.last_cb_end = ++w.seqctr;
   w.run_first = -1;
   w.cb_in_run = 0;
   w.stop_seen = false;
@@ -580,6 +606,7 @@ static Outcome run_case(const Case &c, int oracle) {
   memset(w.net, 0, sizeof w.net);
   memset(w.flags, 0, sizeof w.flags);
   memset(w.last_rev, 0, sizeof w.last_rev);
+  memset(w.chg_seq, 0, sizeof w.chg_seq);
   w.sched_last = w.now;
   shim_silence();
   for (auto &op : c)
@@ -640,7 +667,10 @@ static Outcome run_case(const Case &c, int oracle) {
     w.sched.clear();
     w.eintr = 0;
     w.sigint_in = 0;
-    for (int f = 0; f < MAXFD; f++) w.flags[f] = POLLIN | POLLOUT;
+    for (int f = 0; f < MAXFD; f++) {
+      w.flags[f] = POLLIN | POLLOUT;
+      w.chg_seq[f] = ++w.seqctr;
+    }
     int64_t far = 0;
     for (auto &p : w.insts)
       if (p->state == PENDING && p->kind == TMR) far = std::max(far, dl_max(p.get()) - w.now);
